@@ -3,7 +3,7 @@
    Model/Cable.v (assembly of the cable system of a cell; schemes).  The conductance
    formulas G*.X are regenerated from /repo on every run. *)
 From Coq Require Import Reals List Lia Lra.
-From JV Require Import Prim TreeSolve TreeSolveFacts Cable GCellUtils CableFacts HinesArr HinesCheck HinesArrFacts HinesIdx HinesTreeFacts HinesIdxFacts HinesArrPositive AsmStruct AssembleM AssembleTotal AsmIdx AsmIdxFacts AssembleGraph AsmGraphFacts EdgeCond EdgeCondFacts GraphStruct GraphStructFacts.
+From JV Require Import Prim TreeSolve TreeSolveFacts Cable GCellUtils CableFacts HinesArr HinesCheck HinesArrFacts HinesIdx HinesTreeFacts HinesIdxFacts HinesArrPositive AsmStruct AssembleM AssembleTotal AsmIdx AsmIdxFacts AssembleGraph AsmGraphFacts EdgeCond EdgeCondFacts GraphStruct GraphStructFacts HinesForestFacts HinesIdxF HinesIdxFFacts AsmIdxF AsmIdxFFacts AsmGraphFFacts ForestPhysical.
 Import ListNotations.
 Local Open Scope R_scope.
 
@@ -324,4 +324,83 @@ Proof.
   - intros b k Hb Hk. cbn in Hb, Hk. assert (b = 0%nat) by lia. assert (k = 0%nat) by (subst; cbn in Hk; lia). subst.
     unfold rowdom, lo_c, up_c, cc_c, cp_c. cbn. repeat split; lra.
   - intros j Hj. cbn in Hj. lia.
+Qed.
+
+(* ================= NETWORKS (forests of cells) =================
+   Model/HinesIdxF.v and Model/AsmIdxF.v give, as functions of the global parent vector, the root flags and the
+   compartment counts, everything Network._init_morph_jaxley_spsolve / _init_morph_jax_spsolve build: per-cell
+   padding, merged levels, root list, per-cell ordered edge table, branch-point groups, slot remapping.  The
+   harness compares them EXACTLY with the running code on every sampled network. *)
+
+(* the verified schedule checker accepts the merged schedule of EVERY network *)
+Theorem C01_checker_accepts_every_network : forall (ps ns : list nat) (rs : list bool),
+  (1 <= length ps)%nat -> (forall b, (b < length ps)%nat -> is_root rs b = false -> (nth b ps 0 < b)%nat) ->
+  (forall b, (b < length ps)%nat -> (1 <= nth b ns 0)%nat) ->
+  check_schedule (layout_ofF ps ns rs) (topo_ofF ps rs) (ops_of_forest ps ns rs) = true.
+Proof. exact forest_accepted. Qed.
+
+(* for EVERY network, every edge list whose integer part is the network's edge table, positive conductances,
+   non-negative membrane terms, dt > 0: no zero divisor, and the output is THE solution of the backward-Euler
+   equations of the network's conductance graph *)
+Theorem C01_every_network_step_solves_the_cable_graph_equations :
+  forall (ps ns : list nat) (rs : list bool) (es : list (edge R)) (v vt ct : nat -> R) (dt : R),
+  (1 <= length ps)%nat -> (forall b, (b < length ps)%nat -> is_root rs b = false -> (nth b ps 0 < b)%nat) ->
+  (forall b, (b < length ps)%nat -> (1 <= nth b ns 0)%nat) ->
+  map strip es = triples_ofF ps ns rs ->
+  0 < dt -> (forall e, In e es -> 0 < e_g R e) -> (forall i, (i < total ps ns)%nat -> 0 <= vt i) ->
+  let ly := layout_ofF ps ns rs in let tp := topo_ofF ps rs in let ops := ops_of_forest ps ns rs in
+  let mask := nthD (mask_ofF ps ns rs) in let n := total ps ns in
+  let s0 := assemble R Rplus Rminus Rmult 0 1 mask n es v vt ct dt (group_ofF ps rs) (child_inds_ofF ps rs) (par_inds_ofF ps rs) in
+  let out := sv (run R Rplus Rminus Rmult Rdiv 0 1 ly ops s0) in
+  (exists y, graph_eq ly tp mask n es v vt ct dt out y) /\
+  (forall x y, graph_eq ly tp mask n es v vt ct dt x y ->
+     forall b k, (b < length ps)%nat -> (k < pl ly b)%nat -> x (cs ly b + k)%nat = out (cs ly b + k)%nat).
+Proof. exact forest_step_solves_the_graph_equations. Qed.
+
+Theorem C01_implicit_step_of_every_network_total :
+  forall (ps ns : list nat) (rs : list bool) (es : list (edge R)) (v vt ct : nat -> R) (dt : R),
+  (1 <= length ps)%nat -> (forall b, (b < length ps)%nat -> is_root rs b = false -> (nth b ps 0 < b)%nat) ->
+  (forall b, (b < length ps)%nat -> (1 <= nth b ns 0)%nat) ->
+  map strip es = triples_ofF ps ns rs ->
+  0 < dt -> (forall e, In e es -> 0 < e_g R e) -> (forall i, (i < total ps ns)%nat -> 0 <= vt i) ->
+  let ly := layout_ofF ps ns rs in let tp := topo_ofF ps rs in let ops := ops_of_forest ps ns rs in
+  let s0 := assemble R Rplus Rminus Rmult 0 1 (nthD (mask_ofF ps ns rs)) (total ps ns) es v vt ct dt
+                     (group_ofF ps rs) (child_inds_ofF ps rs) (par_inds_ofF ps rs) in
+  let out := sv (run R Rplus Rminus Rmult Rdiv 0 1 ly ops s0) in
+  Forall (fun d => d <> 0) (divisors R Rplus Rminus Rmult Rdiv 0 1 ly ops s0) /\
+  (exists y, sat ly tp s0 out y) /\
+  (forall x y, sat ly tp s0 x y -> forall b k, (b < length ps)%nat -> (k < pl ly b)%nat -> x (cs ly b + k)%nat = out (cs ly b + k)%nat).
+Proof. exact forest_step_total. Qed.
+
+(* ... and in the physical parameters (conductances of compute_axial_conductances on the network's edge table) *)
+Theorem C01_every_network_step_in_physical_parameters :
+  forall (ps ns : list nat) (rs : list bool) (rad len ra cm v vt ct : nat -> R) (dt : R),
+  (1 <= length ps)%nat -> (forall b, (b < length ps)%nat -> is_root rs b = false -> (nth b ps 0 < b)%nat) ->
+  (forall b, (b < length ps)%nat -> (1 <= nth b ns 0)%nat) ->
+  (forall c, 0 < rad c /\ 0 < len c /\ 0 < ra c /\ 0 < cm c) ->
+  0 < dt -> (forall i, (i < total ps ns)%nat -> 0 <= vt i) ->
+  let es := forest_edges ps ns rs rad len ra cm in
+  let ly := layout_ofF ps ns rs in let tp := topo_ofF ps rs in
+  let mask := nthD (mask_ofF ps ns rs) in let n := total ps ns in
+  let s0 := assemble R Rplus Rminus Rmult 0 1 mask n es v vt ct dt (group_ofF ps rs) (child_inds_ofF ps rs) (par_inds_ofF ps rs) in
+  let out := sv (run R Rplus Rminus Rmult Rdiv 0 1 ly (ops_of_forest ps ns rs) s0) in
+  (exists y, graph_eq ly tp mask n es v vt ct dt out y) /\
+  (forall x y, graph_eq ly tp mask n es v vt ct dt x y ->
+     forall b k, (b < length ps)%nat -> (k < pl ly b)%nat -> x (cs ly b + k)%nat = out (cs ly b + k)%nat).
+Proof. exact forest_step_physical. Qed.
+
+(* non-vacuity: the network of the cells parents [-1,0,0,1] / [-1,0] / [-1] with compartments [2,1,2,1] / [2,1] / [2]
+   meets the hypotheses; its index structure (per-cell padding, merged levels, roots) and the size of its edge table *)
+Example C01_network_example :
+  let ps := [0; 0; 0; 1; 0; 4; 0]%nat in let ns := [2; 1; 2; 1; 2; 1; 2]%nat in
+  let rs := [true; false; false; false; true; false; true] in
+  (1 <= length ps)%nat /\ (forall b, (b < length ps)%nat -> is_root rs b = false -> (nth b ps 0 < b)%nat) /\
+  (forall b, (b < length ps)%nat -> (1 <= nth b ns 0)%nat) /\
+  idx_summaryF ps ns rs = ([0; 2; 4; 6; 7; 9; 10; 12]%nat, ([2; 2; 2; 1; 2; 1; 2]%nat,
+     ([([(1, 0); (2, 0); (5, 2)], [(0, 0); (4, 2)]); ([(3, 1)], [(1, 1)])]%nat, [0; 4; 6]%nat))) /\
+  length (triples_ofF ps ns rs) = 22%nat.
+Proof.
+  cbv zeta. split; [cbn; lia|]. split; [|split; [|split; vm_compute; reflexivity]].
+  - intros b Hb. do 7 (destruct b as [|b]; [cbn; intros; try discriminate; lia|]). cbn in Hb. lia.
+  - intros b Hb. do 7 (destruct b as [|b]; [cbn; lia|]). cbn in Hb. lia.
 Qed.
